@@ -576,7 +576,12 @@ func (g *c03Gen) item(d int, opaque bool) *gt {
 	case k < 86:
 		return gApp(";", g.seq(d-1, cutIn), g.seq(d-1, cutIn)) // nested disjunction
 	case k < 93:
-		return gApp(",", g.seq(d-1, cutIn), g.simple()) // left-nested conjunction
+		// left-nested conjunctions, one to three levels deep: transparent to cut at every depth
+		t := gApp(",", g.seq(d-1, cutIn || g.r.Intn(2) == 0), g.simple())
+		for extra := g.r.Intn(3); extra > 0; extra-- {
+			t = gApp(",", t, g.simple())
+		}
+		return t
 	default:
 		g.local++
 		l := gVar(g.local - 1)
@@ -820,8 +825,20 @@ func genC03Answers(r *rand.Rand, n int, tier string) []string {
 	g := &c03Gen{r: r}
 	for k := 0; k < n; {
 		prog := g.program()
+		// a third of the programs get a WIDER t: 2..7 further (unused, distinct) arguments in the head
+		// and in every call, so that heads of 9..14 instructions and calls with many variables occur
+		pad := 0
+		if r.Intn(3) == 0 {
+			pad = 2 + r.Intn(6)
+			for ci, cl := range prog {
+				prog[ci] = padPred(cl, "t", 3, pad)
+			}
+		}
 		for j := 0; j < 2 && k < n; j++ {
 			q := g.query()
+			if pad > 0 {
+				q = padPred(q, "t", 3, pad)
+			}
 			max := pick(r, []int{1, 3, 30, 30, 30, 30})
 			if st.screen(prog, q, max) {
 				out = append(out, answersPayload(max, q, prog))
@@ -831,6 +848,43 @@ func genC03Answers(r *rand.Rand, n int, tier string) []string {
 	}
 	st.report("c03.answers")
 	return out
+}
+
+// padPred gives every occurrence of name/arity in the clause (or query) t `k` further arguments:
+// fresh variables, distinct from each other and from every variable of t.
+func padPred(t *gt, name string, arity, k int) *gt {
+	next := gtMaxVar(t) + 1
+	var walk func(t *gt) *gt
+	walk = func(t *gt) *gt {
+		if t.kind != "app" {
+			return t
+		}
+		args := make([]*gt, len(t.args), len(t.args)+k)
+		for i, a := range t.args {
+			args[i] = walk(a)
+		}
+		if t.s == name && len(t.args) == arity {
+			for i := 0; i < k; i++ {
+				args = append(args, gVar(next))
+				next++
+			}
+		}
+		return gApp(t.s, args...)
+	}
+	return walk(t)
+}
+
+func gtMaxVar(t *gt) int {
+	m := -1
+	if t.kind == "var" && t.v > m {
+		m = t.v
+	}
+	for _, a := range t.args {
+		if v := gtMaxVar(a); v > m {
+			m = v
+		}
+	}
+	return m
 }
 
 // ---------------------------------------------------------------------------
@@ -868,8 +922,11 @@ func (g *c04Gen) ball() *gt {
 		return gApp("bb", gInt(int64(1+g.r.Intn(2))))
 	case k < 88:
 		return gApp("bb", g.newLocal()) // an unbound variable inside the ball
-	case k < 94:
+	case k < 91:
 		return gApp("error", gAtom("my_error"), gAtom("my_context"))
+	case k < 95:
+		// a user ball of the shape error(Formal, _): the context stays the (copied) variable
+		return gApp("error", gAtom("my_error"), g.newLocal())
 	default:
 		return g.newLocal() // throw(_): instantiation error
 	}
@@ -916,6 +973,13 @@ func (g *c04Gen) leaf() *gt {
 		return gApp("=", gVar(c04R), gApp("k", gInt(int64(g.mark))))
 	case k < 57:
 		return gAtom("true")
+	case k < 58:
+		// the ball is a COPY of the thrown term: the unbound context of a user ball error(F, _) reaches
+		// the catcher unbound (nothing is filled in on the way)
+		c := g.newLocal()
+		return gApp("catch", gApp("throw", gApp("error", gAtom("my_error"), g.newLocal())),
+			gApp("error", gAtom("my_error"), c),
+			refITE(gApp("var", c), gApp("=", gVar(c04R), gAtom("ctx_var")), gApp("=", gVar(c04R), gApp("ctx", c))))
 	case k < 60:
 		return gAtom("fail")
 	case k < 80:
@@ -951,10 +1015,18 @@ func (g *c04Gen) catcherRecovery(d int) (*gt, *gt) {
 		c := g.newLocal()
 		catcher = c // catches everything
 		exposes = []*gt{gApp("throw", c), gApp("throw", gApp("wrapped", gAtom("w")))}
-	default:
+	case k < 92:
 		e := g.newLocal()
 		catcher = gApp("error", e, g.newLocal())
 		exposes = []*gt{gApp("=", gVar(c04R), gApp("e", e)), gApp("throw", e)}
+	case k < 96:
+		// only user balls have the formal my_error, so their context may be observed: it is whatever
+		// the thrown term had there - a variable stays a variable
+		catcher = gApp("error", gAtom("my_error"), gAtom("my_context"))
+	default:
+		c := g.newLocal()
+		catcher = gApp("error", gAtom("my_error"), c)
+		exposes = []*gt{refITE(gApp("var", c), gApp("=", gVar(c04R), gAtom("ctx_var")), gApp("=", gVar(c04R), gApp("ctx", c)))}
 	}
 	var rec *gt
 	switch k := g.r.Intn(100); {
